@@ -33,6 +33,7 @@ import (
 	metav1 "k8s.io/apimachinery/pkg/apis/meta/v1"
 	"k8s.io/apimachinery/pkg/util/intstr"
 	"sigs.k8s.io/controller-runtime/pkg/client"
+	gatewayv1 "sigs.k8s.io/gateway-api/apis/v1"
 
 	"verif/harness/lib/pipeline"
 )
@@ -88,6 +89,9 @@ type Config struct {
 	EqualStamps    bool // some ingresses share the creation timestamp
 	PathTypes      bool // Exact / Prefix / ImplementationSpecific / nil (else always Prefix... see genPath)
 	GlobalKeys     [][]string
+	// Gateway adds Gateway API objects (GatewayClass, Gateway, HTTPRoute v1) sharing services
+	// and secrets with the ingresses; the pipeline needs Options.HasGatewayV1. Not in Full().
+	Gateway bool
 	// HostPool / PathPool / PortClashAll override the pools (nil = the package pools).
 	HostPool []string
 	PathPool []string
@@ -471,6 +475,9 @@ func GenCluster(rng *rand.Rand, cfg Config) []client.Object {
 	for k := 0; k < n && k < len(perm); k++ {
 		objs = append(objs, GenIngress(rng, cfg, perm[k]))
 	}
+	if cfg.Gateway {
+		objs = append(objs, GenGatewayObjects(rng)...)
+	}
 	return objs
 }
 
@@ -550,6 +557,12 @@ func KindOf(o client.Object) string {
 		return "ConfigMap"
 	case *api.Pod:
 		return "Pod"
+	case *gatewayv1.GatewayClass:
+		return "GatewayClass"
+	case *gatewayv1.Gateway:
+		return "Gateway"
+	case *gatewayv1.HTTPRoute:
+		return "HTTPRoute"
 	}
 	return fmt.Sprintf("%T", o)
 }
@@ -594,6 +607,12 @@ func (s *State) ofKind(kind string) []client.Object {
 func GenChange(rng *rand.Rand, cfg Config, s *State) pipeline.Change {
 	for try := 0; try < 50; try++ {
 		var ch *pipeline.Change
+		if cfg.Gateway && rng.Intn(5) == 0 {
+			if ch = genGatewayChange(rng, s); ch != nil {
+				s.Apply([]pipeline.Change{*ch})
+				return *ch
+			}
+		}
 		switch k := rng.Intn(20); {
 		case k < 6: // ingress add / replace
 			ing := GenIngress(rng, cfg, rng.Intn(len(IngressNames)))
@@ -893,6 +912,12 @@ func NewOfKind(kind string) client.Object {
 		return &api.ConfigMap{}
 	case "Pod":
 		return &api.Pod{}
+	case "GatewayClass":
+		return &gatewayv1.GatewayClass{}
+	case "Gateway":
+		return &gatewayv1.Gateway{}
+	case "HTTPRoute":
+		return &gatewayv1.HTTPRoute{}
 	}
 	panic("world: unknown kind " + kind)
 }
